@@ -69,7 +69,7 @@ def spans(text, pat):
     return out
 
 
-TOOLS = ('verify', 'tifa', 'run')
+TOOLS = ('cait', 'verify', 'tifa', 'run')
 
 
 def one_pass(ctx, src, independent, pat, order, ending, case, tag, entry='separate'):
@@ -99,7 +99,20 @@ def one_pass(ctx, src, independent, pat, order, ending, case, tag, entry='separa
         for tool in order:
             ctx.step(tool)
             try:
-                if tool == 'verify':
+                if tool == 'cait':
+                    # an AST-based tool asked for "the program": it must be shown the presented text, whether or not
+                    # the section has been verified yet
+                    from pedal.cait.cait_api import parse_program
+                    shown = parse_program()
+                    try:
+                        want_tree = ast.dump(ast.parse(code))
+                    except SyntaxError:
+                        want_tree = None
+                    if want_tree is not None and ast.dump(shown.astNode) != want_tree:
+                        ctx.fail({'symptom': 'CAIT is shown a tree that is not the presented text', 'where': where,
+                                  'mode': mode_name, 'verified_before': ok is not None}, case=case, k=k,
+                                 got=ast.unparse(shown.astNode)[:200], want=code[:200])
+                elif tool == 'verify':
                     ok = verify()
                 elif ok is False:
                     continue          # an instructor script does not analyse or run code that does not parse
@@ -213,6 +226,8 @@ def make_body(max_lines, orders, second):
         ending = ('stop', 'resolve')[ctx.choose(2, 'ending')]
         again = ctx.choose(3, 'second-pass') if second else 0     # 0 none, 1 same mode, 2 other mode
         entry = ('separate', 'set_source')[ctx.choose(2, 'entry')] if second else 'separate'
+        # (tool-orders phase) the whole file may have been verified before it is separated
+        pre_verified = bool(ctx.choose(2, 'verified-before-separating')) if not second else False
         src = mk(kinds, marker)
         case = {'file': src, 'mode': 'independent' if independent else 'cumulative', 'pattern': pname,
                 'order': order, 'ending': ending, 'second_pass': again, 'entry': entry}
@@ -224,6 +239,9 @@ def make_body(max_lines, orders, second):
         cmds.clear_report()
         if entry == 'separate':
             cmds.contextualize_report(src)
+            if pre_verified:
+                case['verified_before_separating'] = True
+                verify()
         one_pass(ctx, src, independent, pat, order, ending, case, 'first', entry)
         if again and ending == 'stop' and not ctx.fails:
             mode2 = independent if again == 1 else not independent
@@ -234,7 +252,7 @@ def make_body(max_lines, orders, second):
 
 def bounds(tier):
     return {'line_kinds': len(KINDS), 'max_lines': 4 if tier == 'quick' else 5, 'patterns': [p[0] for p in PATS],
-            'tool_orders': 1 if tier == 'quick' else 6, 'next_section_past_end': 2, 'second_pass': 'none/same/other mode'}
+            'tool_orders': '1 (cait, verify, tifa, run) on <=4 lines + 12 orders on <=3 lines' if tier == 'quick' else 24, 'next_section_past_end': 2, 'second_pass': 'none/same/other mode'}
 
 
 def phases(tier):
@@ -242,10 +260,12 @@ def phases(tier):
         orders = [TOOLS]
         return [Phase('sections', make_body(4, orders, True), setup=_setup, chunk=300,
                       describe='all files of <=4 lines x pattern x mode x ending x second pass'),
-                Phase('tool-orders', make_body(3, list(itertools.permutations(TOOLS)), False), setup=_setup, chunk=300,
-                      describe='all files of <=3 lines x every order of verify/tifa/run (tools on text that was not verified)')]
+                Phase('tool-orders', make_body(3, [o for o in itertools.permutations(TOOLS) if o.index('cait') < 2], False),
+                      setup=_setup, chunk=300,
+                      describe='all files of <=3 lines x every order of cait/verify/tifa/run with cait first or second '
+                               '(tools on text that was not verified)')]
     orders = list(itertools.permutations(TOOLS))
     return [Phase('sections', make_body(5, [TOOLS], True), setup=_setup, chunk=300,
                   describe='all files of <=5 lines x pattern x mode x ending x second pass'),
             Phase('tool-orders', make_body(4, orders, False), setup=_setup, chunk=300,
-                  describe='all files of <=4 lines x every order of verify/tifa/run')]
+                  describe='all files of <=4 lines x every order of cait/verify/tifa/run')]
